@@ -556,6 +556,7 @@ pub enum Kind {
 // known-finding ids (signature predicates are the code next to each use)
 pub const KF_GAS_PAIR: &str = "C05/bubble-dew-zero-pressure-gas-pair";
 pub const KF_HETERO_COPIES: &str = "C05/heteroazeotrope-identical-liquids";
+pub const KF_HETERO_NEAR: &str = "C05/heteroazeotrope-near-trivial-phases";
 pub const KF_NEAR_TRIVIAL: &str = "C05/near-trivial-two-phase-result";
 pub const KF_FLASH_RR: &str = "C05/flash-rachford-rice-lattice";
 pub const KF_BEYOND_MAX: &str = "C05/bubble-dew-beyond-max-density";
@@ -691,8 +692,15 @@ fn check_phases_inner(obs: &mut Obs, tag: &str, kind: Kind, phases: &[&St], tol:
                 );
                 if kind == Kind::Hetero {
                     // signature: two of the three phases of a heteroazeotrope result coincide
-                    obs.class("known signature: heteroazeotrope phases identical");
-                    obs.known_or_fail(KF_HETERO_COPIES, msg);
+                    if trivial {
+                        // (fixed in d8e65519: heteroazeotrope now rejects trivial solutions; a plain failure)
+                        obs.class("known signature: heteroazeotrope phases identical");
+                        obs.known_or_fail(KF_HETERO_COPIES, msg);
+                    } else {
+                        // copies to 1e-4 that the library's own test (1e-5) does not call trivial
+                        obs.class("known signature: heteroazeotrope phases nearly identical (1e-5..1e-4)");
+                        obs.known_or_fail(KF_HETERO_NEAR, msg);
+                    }
                 } else {
                     obs.fail(msg);
                 }
